@@ -41,6 +41,8 @@ def _shard_worker(path):
                 rep.count("crash:" + ck)
             if not scn.clean:
                 rep.count("scenarios_not_clean")
+            if meta is not None and getattr(meta, "meta", None) and meta.meta.get("clock_gaps"):
+                rep.count("clock_gaps_between_frames", meta.meta["clock_gaps"])
             monitor(scn, meta, rep, sf, ck)
     except Exception:
         rep.inconclusive.append("monitor exception on %s: %s" % (path, traceback.format_exc()[-1500:]))
